@@ -145,10 +145,14 @@ def case_roundtrip(case, col=None):
         old = pint.application_registry.get()
         try:
             back = None
-            for _ in range(case["swaps"]):
-                # a freshly built application registry that has never parsed any of the (prefixed) names
+            for i_ in range(case["swaps"]):
+                # a freshly built application registry that has never parsed any of the (prefixed) names, installed through either of the
+                # two public ways (pint.set_application_registry / the ApplicationRegistry proxy's set())
                 fresh = pint.UnitRegistry()
-                pint.set_application_registry(fresh)
+                if (i_ + case["proto"]) % 2 == 0:
+                    pint.set_application_registry(fresh)
+                else:
+                    pint.get_application_registry().set(fresh)
                 s, back = attempt(pickle.loads, data)
                 if s == "err":
                     raise Violation(f"unpickle_raised:{kind}:{exc_class(back)}", f"unpickling {kind} {units} (protocol {case['proto']}) raised {type(back).__name__}: {back}")
